@@ -85,4 +85,58 @@ theorem any_thread_functions_touch_only_shared :
     (Gen.fieldAccess.filter (fun a => a.2.2 == "Conn.WriteControl" || a.2.2 == "Conn.write" || a.2.2 == "Conn.writeFatal")).all
       (fun a => sharedFields.contains a.1) = true := by decide +kernel
 
+/-! ### non-vacuity -/
+section NonVacuity
+set_option linter.defProp false
+
+/-! a schedule of two threads: thread 0 takes the mutex and its frame (frame no. 1) is accepted by
+    the transport in two parts; thread 1 (a WriteControl) starts waiting between the two parts;
+    thread 0 finishes and releases; thread 1 acquires and writes the first part of its frame -/
+def witG1 : G := { init with phase := upd init.phase 0 .waiting }
+def witG2 : G := { witG1 with holder := some 0, phase := upd witG1.phase 0 .locked }
+def witG3 : G := { witG2 with phase := upd witG2.phase 0 (.writing 0), frameNo := upd witG2.frameNo 0 (witG2.frameNo 0 + 1) }
+def witG4 : G := { witG3 with wire := witG3.wire ++ [(0, witG3.frameNo 0)], phase := upd witG3.phase 0 (.writing (0 + 1)) }
+def witG5 : G := { witG4 with phase := upd witG4.phase 1 .waiting }
+def witG6 : G := { witG5 with wire := witG5.wire ++ [(0, witG5.frameNo 0)], phase := upd witG5.phase 0 (.writing (1 + 1)) }
+def witG7 : G := { witG6 with phase := upd witG6.phase 0 .done }
+def witG8 : G := { witG7 with holder := none, phase := upd witG7.phase 0 .idle }
+def witG9 : G := { witG8 with holder := some 1, phase := upd witG8.phase 1 .locked }
+def witG10 : G := { witG9 with phase := upd witG9.phase 1 (.writing 0), frameNo := upd witG9.frameNo 1 (witG9.frameNo 1 + 1) }
+def witG11 : G := { witG10 with wire := witG10.wire ++ [(1, witG10.frameNo 1)], phase := upd witG10.phase 1 (.writing (0 + 1)) }
+
+def witR1 : Reach witG1 := .step .init (.want init 0 rfl)
+def witR2 : Reach witG2 := .step witR1 (.acquire witG1 0 rfl rfl)
+def witR3 : Reach witG3 := .step witR2 (.checkOk witG2 0 rfl rfl)
+def witR4 : Reach witG4 := .step witR3 (.part witG3 0 0 rfl)
+def witR5 : Reach witG5 := .step witR4 (.want witG4 1 rfl)
+def witR6 : Reach witG6 := .step witR5 (.part witG5 0 1 rfl)
+def witR7 : Reach witG7 := .step witR6 (.finish witG6 0 2 rfl)
+def witR8 : Reach witG8 := .step witR7 (.release witG7 0 rfl)
+def witR9 : Reach witG9 := .step witR8 (.acquire witG8 1 rfl rfl)
+def witR10 : Reach witG10 := .step witR9 (.checkOk witG9 1 rfl rfl)
+def witR11 : Reach witG11 := .step witR10 (.part witG10 1 0 rfl)
+
+/-- the wire of the witness state `witG11` -/
+example : witG11.wire = [(0, 1), (0, 1), (1, 1)] := rfl
+
+/-- non-vacuity of `frames_atomic`: `witG11` is reachable; thread 0's frame went out in two parts
+    with thread 1 waiting in between -/
+example : Contiguous [(0, 1), (0, 1), (1, 1)] := frames_atomic witR11
+
+/-- non-vacuity of `writecontrol_timeout_clean`: in `witG5` thread 1 waits while thread 0 is in the
+    middle of its frame -/
+example : ∃ g', Step witG5 g' ∧ g'.wire = [(0, 1)] ∧ g'.writeErr = false ∧ g'.holder = some 0 ∧ g'.phase 1 = .idle :=
+  writecontrol_timeout_clean witG5 1 rfl
+
+/-- non-vacuity of `timeout_always_enabled`: in `witG5` thread 1 waits and thread 0 holds the mutex -/
+example : ∃ g', Step witG5 g' ∧ g'.phase 1 = .idle ∧ g'.holder = some 0 :=
+  timeout_always_enabled (g := witG5) 1 0 rfl rfl
+
+/-- non-vacuity of `mutex`: in the reachable `witG6` thread 0 is inside the critical section (phase
+    `.writing 2`) while thread 1 waits; the hypotheses hold for t = u = 0 (and, by the theorem, for no
+    other pair) -/
+example : (0 : Nat) = 0 := mutex witR6 0 0 (by decide) (by decide)
+
+end NonVacuity
+
 end WS.Props.C11
